@@ -209,7 +209,10 @@ pub fn build_case(seed: u64, i: usize, thorough: bool) -> Built {
         let (w, label) = hostile_world(&mut r_proj);
         (None, w, label)
     } else {
-        let knobs = if r_proj.chance(1, 3) { Knobs::all_on(&mut r_proj) } else { Knobs::random(&mut r_proj) };
+        let mut knobs = if r_proj.chance(1, 3) { Knobs::all_on(&mut r_proj) } else { Knobs::random(&mut r_proj) };
+        // grammatical but odd expressions (tuples, `_`, anonymous components, nested arrays)
+        // in every position an expression can be written in
+        knobs.odd_permille = *r_proj.pick(&[0, 0, 0, 15, 60]);
         let shape = ProjectShape { max_files: 3, max_defs: if thorough { 6 } else { 5 }, with_main: true, pragma_always: false };
         let p = gen::gen_project(&mut r_proj, &knobs, &shape);
         let mut style = Style::random(&mut r_style);
